@@ -18,6 +18,7 @@ RULE = ("case = CFG description (<=4 variables, <=8 productions, bodies of 0-4 s
 ASSUMPTIONS = ["reference = least fixpoint of bounded languages per variable (vlib/ref_cfg.py)",
                "sizes bounded: <=4 variables, <=8 productions, words of length <=4"]
 BUDGET = {"quick": 800, "thorough": 6000}
+FUZZ = {"procs": 4, "runs": 8000}      # atheris supplement of the thorough tier (vlib/fuzz.py)
 WATCHDOG = 30
 EXHAUSTIVE_SCOPE = {
     "thorough": "all grammars over variables {S,A}, terminals {a,b}, with 1-3 distinct productions with bodies of "
